@@ -65,11 +65,32 @@ func (w *world) doOp(op int, k int, allowCancel bool) (failed bool) {
 				cancel()
 			}()
 		}
+		w.prog = nil
 		res := c.Execve(ctx, p)
+		cancelled := kern.Cancelled(ctx)
 		cancel()
 		failed = res.Status == runner.StatusRunnerError
 		if failed {
 			sym.Assert(res.Error != "", "Runner Error needs an explanation")
+		}
+		if pr := w.prog; pr != nil && pr.started && !w.l.broken {
+			// C11: the program ran: the verdict is its genuine one, or Time Limit Exceeded when the
+			// run was cancelled before it ended; cancellation is never a runner error
+			sym.Reach("program-verdict")
+			sym.Assert(pr.ended && pr.reaped, "the program must be dead and reaped when Execve returns")
+			if p.SyncFunc == nil || p.SyncAfterExec || true {
+				if !failed {
+					want := refVerdict(pr.status)
+					sym.Assert(res.Status == want, "the verdict must be the program's genuine one (a kill is Time Limit Exceeded)")
+				}
+			}
+			if cancelled {
+				sym.Reach("cancelled-run")
+			}
+			syncRefusedAfterExec := p.SyncAfterExec && p.SyncFunc != nil
+			if !syncRefusedAfterExec {
+				sym.Assert(!failed, "a run whose program was started must not end as Runner Error")
+			}
 		}
 	}
 	if !w.l.broken {
@@ -81,6 +102,26 @@ func (w *world) doOp(op int, k int, allowCancel bool) (failed bool) {
 	}
 	_ = context.Background
 	return failed
+}
+
+// refVerdict: README status table for a terminated program.
+func refVerdict(ws uint32) runner.Status {
+	low := ws & 0x7f
+	if low == 0 {
+		if (ws>>8)&0xff == 0 {
+			return runner.StatusNormal
+		}
+		return runner.StatusNonzeroExitStatus
+	}
+	switch low {
+	case 24, 9:
+		return runner.StatusTimeLimitExceeded
+	case 25:
+		return runner.StatusOutputLimitExceeded
+	case 31:
+		return runner.StatusDisallowedSyscall
+	}
+	return runner.StatusSignalled
 }
 
 // c10: any history of <= n operations; failures caused by the request or the program are
@@ -101,13 +142,20 @@ func c10(nops int, breaks int, allowCancel bool) {
 	}
 	if !w.l.broken {
 		err := w.host.Ping()
-		sym.Reach("final-ping")
-		sym.Assert(err == nil, "the environment is unusable after a request- or program-caused failure")
-		sym.Assert(!w.initExited, "the container init exited although the transport is intact")
+		if !w.l.broken { // the transport may be lost during this very call
+			sym.Reach("final-ping")
+			sym.Assert(err == nil, "the environment is unusable after a request- or program-caused failure")
+			sym.Assert(!w.initExited, "the container init exited although the transport is intact")
+		}
+	} else {
+		// lost transport: a later call must fail promptly (a hang is reported as a deadlock)
+		err := w.host.Ping()
+		sym.Reach("ping-after-loss")
+		sym.Assert(err != nil, "a call after the transport was lost must fail")
 	}
 }
 
 func VerifC10_Ops1()       { c10(1, 0, false) }
 func VerifC10_Ops2()       { c10(2, 0, false) }
 func VerifC10_Ops1Cancel() { c10(1, 0, true) }
-func VerifC10_Ops2Break()  { c10(2, 1, false) }
+func VerifC10_Ops1Break()  { c10(1, 1, false) }
